@@ -16,6 +16,7 @@ Known findings (genuine defects recorded, not repaired: the suite pins the wrong
 derivative tables (G1) and the position block / pitch coefficient / yaw row of the Pose3D Jacobian (G3).
 Not decided: numerical agreement with finite differences."""
 import sympy as sp
+from .. import alg
 from .. import sym, mat
 from ..tree import sx, walk, pp, strip_casts
 from .C20 import deep_unwrap
@@ -451,6 +452,30 @@ def check_ls_covariance(fx, R):
         if not isinstance(out, sp.MatrixBase):
             R.undecided('G4', 'LeastSquares<%s>::computeEstimateCovariance' % S, 'result not readable as a matrix: %s' % (out,))
             continue
+        # the covariance is a query: asked twice (a-priori variance, then the a-posteriori one) without solving again, the second answer is
+        # that of its own argument - the function is read a second time on the state the first call left, with a second variance
+        try:
+            v2 = sp.Symbol('secondVariance', positive=True)
+            sts2 = rd.run(f, args=[v2], state=sts[0])
+            out2 = sts2[0].ret if len(sts2) == 1 else None
+            if isinstance(out2, sp.MatrixBase):
+                first = sp.Symbol('arg:dataVariance', real=True)
+                diff2 = sp.Matrix(out2) - sp.Matrix(out).subs(first, v2)
+                vq = alg.decide_zero(diff2)
+                if vq[0] == 'nonzero':
+                    R.violated('G4', 'LeastSquares::computeEstimateCovariance:second-query', 'computeEstimateCovariance(v1) followed by computeEstimateCovariance(v2) on the same solved object returns, the second time, '
+                               'a matrix that differs from the covariance for v2 alone (by %s at %s): the first call left its variance in the object (%s), so every further query compounds the factors' % (
+                                   vq[2], alg.witness_text(vq[1])[:140], ', '.join(sorted('.'.join(k_[1:]) for k_ in sts[0].fields if k_[0] == 'this' and isinstance(sts[0].fields[k_], sp.MatrixBase)
+                                                                                      and any(x_.has(first) for x_ in sts[0].fields[k_]))) or 'a member'), fx.rel(f['loc']), 'E-ALG')
+                    continue
+                if vq[0] == 'zero':
+                    R.holds('G4', 'LeastSquares<%s>::computeEstimateCovariance:second-query' % S, 'a second query returns the covariance of its own variance', fx.rel(f['loc']), 'E-ALG')
+                else:
+                    R.undecided('G4', 'LeastSquares<%s>::computeEstimateCovariance:second-query' % S, 'second query not decided: %s' % vq[1])
+            else:
+                R.undecided('G4', 'LeastSquares<%s>::computeEstimateCovariance:second-query' % S, 'second call not readable')
+        except sym.Unsupported as u:
+            R.undecided('G4', 'LeastSquares<%s>::computeEstimateCovariance:second-query' % S, str(u))
         a = sp.diag(*[sp.Symbol('a%d' % i, real=True) for i in range(3)])
         Mi = sp.Matrix(3, 3, lambda i, j: sp.Symbol('m%d%d' % (min(i, j), max(i, j)), real=True))
         v = [s for s in out.free_symbols if s.name == 'arg:dataVariance']
